@@ -3,6 +3,7 @@
 # 1. scratch worktree of /repo HEAD + patch  2. baseline suite must still pass  3. demo: exit 0 without, non-zero with
 # 4. run the given checks (quick) against the patched worktree via FCPMC_REPO.  Removes the worktree afterwards.
 set -u
+V="${VERIF_ROOT:-$(cd "$(dirname "$0")/.." && pwd)}"   # the copy of /verif whose checks are run (a snapshot keeps results independent of later edits)
 m="$(realpath "$1")"; shift
 name="$(basename "$(dirname "$m")")-$(basename "$m")"
 wt="/tmp/sc/$name"
@@ -24,9 +25,9 @@ if ! git -C "$wt" apply "$m/patch.diff"; then echo "PATCH DOES NOT APPLY"; exit 
 demo; r1=$?
 echo "demo with patch:    exit $r1"; tail -3 "$wt/.demo.out" | cut -c1-200
 rm -rf "$wt/.hypothesis/examples"
-/verif/tools/baseline.py "$wt" | head -4
+"$V/tools/baseline.py" "$wt" | head -4
 rm -rf "$wt/.hypothesis/examples"
 for c in "$@"; do
-  FCPMC_REPO="$wt" /verif/run "$c" quick > "/tmp/sc/$name.$c.out" 2>&1; rc=$?
+  FCPMC_CACHE=/verif/.cache FCPMC_REPO="$wt" "$V/run" "$c" quick > "/tmp/sc/$name.$c.out" 2>&1; rc=$?
   echo "check $c: rc=$rc $(grep -c '^VIOLATION' /tmp/sc/$name.$c.out) violation lines; $(grep -m1 'class=' /tmp/sc/$name.$c.out | cut -c1-160)"
 done
